@@ -134,6 +134,22 @@ PROPS = {
         "trusted_base": TB_COMMON + ["serde / serde_json plumbing and serde_json's number grammar (modelled by a recogniser, tied by the malformed-number stream)"],
         "assumptions": ASSUME_COMMON,
     },
+    "C10": {
+        "rule": "non-negative decimals with 1..2000 digits, scales -2000..2000 of both parities: perfect squares, perfect squares +-1 in a far-away digit, squares of roots whose digits after "
+                "the p-th are 5000..0 / 4999..9 (perturbed by -2..2), inputs with more than 2(p+5) digits, d*10^k, random; p in {100, 1..5, 1..150, 1..40}; 7 modes; through "
+                "sqrt_with_context, the reference form, the absolute-value and copy-sign forms; zero, one written as 1.000, negative inputs. Each result is judged by the exact certificate "
+                "(squares of the rounding boundaries compared with x), and compared exactly with the model.",
+        "trusted_base": TB_COMMON + ["BigUint::sqrt is the floor square root (modelled by Nat.sqrt)"],
+        "assumptions": ASSUME_COMMON,
+    },
+    "C11": {
+        "rule": "decimals of both signs with 1..2000 digits, scales -2000..2000 (all residues mod 3): perfect cubes, perfect cubes +-1 in a far-away digit, cubes of roots whose digits "
+                "after the p-th are 5000..0 / 4999..9 (perturbed), inputs with more than 3(p+4) digits, d*10^k, random; p in {160, 1..5, 1..150, 1..40}; 7 modes; cbrt(-x) under the mirrored "
+                "mode compared with -cbrt(x). Each result is judged by the exact certificate (cubes of the rounding boundaries compared with |x|, Floor/Ceiling on the signed value) and "
+                "compared exactly with the model.",
+        "trusted_base": TB_COMMON + ["BigUint::nth_root(3) is the floor cube root (modelled by a bisection icbrt)"],
+        "assumptions": ASSUME_COMMON,
+    },
 }
 
 
